@@ -1,6 +1,7 @@
 package main
 
 import (
+	"os"
 	"fmt"
 	"go/ast"
 	"go/token"
@@ -308,7 +309,15 @@ func (x *Exec) stmt1(s ast.Stmt, st *State) flow {
 	case *ast.GoStmt:
 		x.fail(n.Pos(), "UNSUPPORTED go statement")
 	case *ast.SendStmt:
-		x.fail(n.Pos(), "UNSUPPORTED channel send")
+		// A-seq: a send on the unbuffered token channel completes when the receiver takes the value (or blocks for ever
+		// once the receiver has stopped - then the main goroutine has finished). No state change in the sender.
+		x.expr(env, n.Chan)
+		x.expr(env, n.Value)
+		x.note("channel send modelled as a completed hand-over (assumption A-seq)")
+		if g, ok := x.st.ghost["sent"]; ok {
+			x.st.ghost["sent"] = Val{"(+ " + g.S + " 1)", tInt}
+		}
+		return flow{next: x.st}
 	}
 	x.fail(s.Pos(), "UNSUPPORTED statement %T", s)
 	return flow{}
@@ -700,6 +709,7 @@ type loopSpec struct {
 	post func(st *State) *State // executed on back edges (may be nil)
 	extraBack string             // additional cont label treated as back edge (goto loops)
 	autoInv func(st *State) []string
+	pureCond func(st *State) string // loop condition evaluated in a back-edge state (only when it has no calls)
 }
 
 func (x *Exec) loopClauses(ord int, kind string) []*Clause {
@@ -768,6 +778,15 @@ func (x *Exec) runLoop(ls *loopSpec, st *State) flow {
 	if fr.top && fr.con != nil {
 		x.st = h
 		x.applyUses(fr.unit, fr.con.Clauses, "loop:use", ls.ord, x.specEnvAt(bodyPos))
+	}
+	// automatic frame invariants: a field the function may modify only on listed objects keeps its entry value on all
+	// other pre-existing objects throughout the loop (assumed at the head, checked at every back edge)
+	var frameFields []*types.Var
+	if fr.top && fr.con != nil {
+		frameFields = x.loopFrameFields(fr, ls.mods)
+		for _, f := range frameFields {
+			h.assume(x.frameFact(fr, f, h))
+		}
 	}
 	if fr.top {
 		x.vacuity(fmt.Sprintf("vacuity:loop%d.head", ls.ord), ls.node.Pos(), "loop invariants are satisfiable together with the path")
@@ -841,6 +860,9 @@ func (x *Exec) runLoop(ls *loopSpec, st *State) flow {
 					g := x.spec(x.specEnvAt(bodyPos), x.parseClause(cl))
 					x.addObl("inv.keep", fmt.Sprintf("%s.keep#%d", lname, k), ls.node.Pos(), g, cl.Text, cl.Props, "")
 				}
+				for _, f := range frameFields {
+					x.addObl("inv.keep", fmt.Sprintf("%s.frame:%s", lname, f.Name()), ls.node.Pos(), x.frameFact(fr, f, b), "loop keeps field "+f.Name()+" of objects outside the modifies clause unchanged", nil, "")
+				}
 				if len(m0) > 0 {
 					var m1 []string
 					for _, cl := range decs {
@@ -849,7 +871,12 @@ func (x *Exec) runLoop(ls *loopSpec, st *State) flow {
 							m1 = append(m1, x.specTerm(x.specEnvAt(bodyPos), n))
 						}
 					}
-					x.addObl("decreases", fmt.Sprintf("dec%d", ls.ord), ls.node.Pos(), lexLess(m1, m0), "decreases "+decs[0].Text, decs[0].Props, "")
+					goal := lexLess(m1, m0)
+					if ls.pureCond != nil {
+						// the measure has to decrease only if the loop goes round again
+						goal = implies(ls.pureCond(b), goal)
+					}
+					x.addObl("decreases", fmt.Sprintf("dec%d", ls.ord), ls.node.Pos(), goal, "decreases "+decs[0].Text, decs[0].Props, "")
 				}
 			}
 		}
@@ -963,6 +990,17 @@ func (x *Exec) forStmt(n *ast.ForStmt, st *State, label string) flow {
 	ls.body = func(s *State) flow { return x.block(n.Body.List, s) }
 	if n.Post != nil {
 		ls.post = func(s *State) *State { return x.stmt(n.Post, s).next }
+	}
+	if n.Cond != nil && !hasCall(n.Cond) && n.Post == nil {
+		ls.pureCond = func(s *State) string {
+			sv := x.st
+			x.st = s.clone()
+			x.inSpec++
+			c := x.expr(x.env(), n.Cond)
+			x.inSpec--
+			x.st = sv
+			return c.S
+		}
 	}
 	f := x.runLoop(ls, cur)
 	out.absorb(f)
@@ -1118,17 +1156,24 @@ func (x *Exec) rangeStmt(n *ast.RangeStmt, st *State, label string) flow {
 		if isString(rv.Ty) {
 			st.ghost[idxName] = Val{"0", tInt}
 			ms.ghosts[idxName] = true
+			// cntN: completed iterations; at the exit it equals rune_count(s), the number of runes of the string
+			cntName := fmt.Sprintf("%scnt%d", pfx, ord)
+			st.ghost[cntName] = Val{"0", tInt}
+			ms.ghosts[cntName] = true
+			x.ctx.decl("fun:rune_count", "(declare-fun rune_count (Str) Int)")
 			ln := "(strlen " + rv.S + ")"
 			ls.autoInv = func(h *State) []string {
 				i := h.ghost[idxName].S
-				return []string{"(<= 0 " + i + ")", "(<= " + i + " " + ln + ")"}
+				return []string{"(<= 0 " + i + ")", "(<= " + i + " " + ln + ")", "(<= 0 " + h.ghost[cntName].S + ")"}
 			}
 			ls.head = func(h *State) (*State, *State) {
 				i := h.ghost[idxName].S
 				t := h.clone()
 				t.assume("(< " + i + " " + ln + ")")
+				t.assume("(>= (runeAt " + rv.S + " " + i + ") 0)")
 				f := h.clone()
 				f.assume("(>= " + i + " " + ln + ")")
+				f.assume(eq(h.ghost[cntName].S, "(rune_count "+rv.S+")"))
 				k := Val{i, tInt}
 				v := Val{"(runeAt " + rv.S + " " + i + ")", types.Typ[types.Rune]}
 				defKV(t, &k, &v)
@@ -1139,6 +1184,7 @@ func (x *Exec) rangeStmt(n *ast.RangeStmt, st *State, label string) flow {
 			ls.post = func(s *State) *State {
 				i := s.ghost[idxName].S
 				s.ghost[idxName] = Val{"(+ " + i + " (runeW " + rv.S + " " + i + "))", tInt}
+				s.ghost[cntName] = Val{"(+ " + s.ghost[cntName].S + " 1)", tInt}
 				return s
 			}
 			break
@@ -1337,6 +1383,29 @@ func (x *Exec) callMods(unit *FuncUnit, call *ast.CallExpr, ms *modSet, seen map
 	}
 	fn := x.calleeOf(info, call)
 	if fn == nil {
+		// call through a function value: union over the contracted functions of that type in this package
+		if ft := info.TypeOf(call.Fun); ft != nil {
+			if sig, ok := ft.Underlying().(*types.Signature); ok {
+				n := 0
+				for _, cu := range x.v.funcs {
+					if cu.Pkg.Types != unit.Pkg.Types || cu.Obj.Type().(*types.Signature).Recv() != nil {
+						continue
+					}
+					if types.Identical(cu.Obj.Type().Underlying(), sig) || types.AssignableTo(cu.Obj.Type(), ft) {
+						if con := x.v.contractOf(cu); con != nil {
+							x.contractMods(cu, con, ms)
+							n++
+						}
+					}
+				}
+				if n > 0 {
+					return
+				}
+			}
+		}
+		if os.Getenv("GOVC_DEBUG_MODS") != "" {
+			fmt.Fprintf(os.Stderr, "mods: all because of function-value call at %s\n", posStr(x.v.fset, call.Pos()))
+		}
 		ms.all = true
 		return
 	}
@@ -1345,6 +1414,9 @@ func (x *Exec) callMods(unit *FuncUnit, call *ast.CallExpr, ms *modSet, seen map
 	}
 	cu := x.v.byObj[fn]
 	if cu == nil {
+		if os.Getenv("GOVC_DEBUG_MODS") != "" {
+			fmt.Fprintf(os.Stderr, "mods: all because of unknown callee %s at %s\n", fn.FullName(), posStr(x.v.fset, call.Pos()))
+		}
 		ms.all = true
 		return
 	}
@@ -1628,7 +1700,6 @@ func (x *Exec) staticTypeOf(cu *FuncUnit, e ast.Expr) types.Type {
 func (x *Exec) havocMods(ms *modSet, st *State) {
 	if ms.all {
 		x.havocAll(st)
-		return
 	}
 	var objs []types.Object
 	for o := range ms.vars {
@@ -1733,4 +1804,84 @@ func (x *Exec) derefFields(cu *FuncUnit, pe ast.Expr) []*types.Var {
 		return fs
 	}
 	return []*types.Var{x.cellField(el)}
+}
+
+// loopFrameFields: fields in the loop's modification set that the function's modifies clause restricts to listed objects
+func (x *Exec) loopFrameFields(fr *frame, ms *modSet) []*types.Var {
+	hasMod := false
+	for _, cl := range fr.con.Clauses {
+		if cl.Kind == "modifies" {
+			hasMod = true
+		}
+	}
+	if !hasMod || ms.all {
+		return nil
+	}
+	items := x.parseModifies(fr.unit, fr.con)
+	var out []*types.Var
+	for f := range ms.fields {
+		whole := false
+		for _, it := range items {
+			if it.all || (it.whole && it.field == f) {
+				whole = true
+			}
+		}
+		if !whole {
+			out = append(out, f)
+		}
+	}
+	sort.Slice(out, func(i, j int) bool { return x.heapName(out[i]) < x.heapName(out[j]) })
+	return out
+}
+
+// frameFact: every object that existed at entry and is not named for field f in the modifies clause has its entry value
+func (x *Exec) frameFact(fr *frame, f *types.Var, st *State) string {
+	items := x.parseModifies(fr.unit, fr.con)
+	sig := fr.unit.Obj.Type().(*types.Signature)
+	ee := &evalEnv{pkg: fr.unit.Pkg.Types, old: x.entry, spec: true, bound: map[string]Val{}}
+	if r := sig.Recv(); r != nil && r.Name() != "" {
+		ee.bound[r.Name()] = x.entry.vars[r]
+	}
+	for i := 0; i < sig.Params().Len(); i++ {
+		p := sig.Params().At(i)
+		if p.Name() != "" && p.Name() != "_" {
+			ee.bound[p.Name()] = x.entry.vars[p]
+		}
+	}
+	var objs []string
+	for _, it := range items {
+		if it.objExp != nil {
+			sel := it.objExp.(*ast.SelectorExpr)
+			if x.fieldByName(fr.unit, sel) == f {
+				sv := x.st
+				x.st = x.entry
+				x.inSpec++
+				o := x.expr(ee, sel.X)
+				x.inSpec--
+				x.st = sv
+				objs = append(objs, o.S)
+			}
+		}
+		if it.deref != nil {
+			for _, df := range x.derefFields(fr.unit, it.deref) {
+				if df == f {
+					sv := x.st
+					x.st = x.entry
+					x.inSpec++
+					o := x.expr(ee, it.deref)
+					x.inSpec--
+					x.st = sv
+					objs = append(objs, o.S)
+				}
+			}
+		}
+	}
+	x.qcount++
+	r := fmt.Sprintf("r!q%d", x.qcount)
+	conds := []string{"(< 0 " + r + ")", "(< " + r + " " + x.entry.alloc + ")"}
+	for _, o := range objs {
+		conds = append(conds, "(not (= "+r+" "+o+"))")
+	}
+	h1, h0 := x.heapOf(st, f), x.heapOf(x.entry, f)
+	return fmt.Sprintf("(forall ((%s Int)) (! (=> %s (= (select %s %s) (select %s %s))) :pattern ((select %s %s))))", r, and(conds...), h1, r, h0, r, h1, r)
 }
